@@ -1136,12 +1136,14 @@ def main(
             return value
 
         def __setitem__( self, key, value ):
-            super( Attribute_print, self ).__setitem__( key, value )
+            # Print first: a failing print (eg. stdout closed, or unable to encode the value) must
+            # refuse the write, not report failure for a value already stored.
             print( "%20s[%5s-%-5s] <= %s " % (
                 self.name, 
                 key.indices( len( self ))[0]   if isinstance( key, slice ) else key,
                 key.indices( len( self ))[1]-1 if isinstance( key, slice ) else key,
                 value ))
+            super( Attribute_print, self ).__setitem__( key, value )
 
     # Iterate the specified Tag names=... in args.tags, deducing Tag names, CIP types, etc.  If no
     # type is provided, defaults to CIP INT (or, whatever type_cls is specified in attribute_kwds).
